@@ -4,9 +4,11 @@
 //!
 //!   holder <programs> <schedule> => <obs>
 //!     programs : `/`-separated per thread, each a string over s (set) g (get) i (is_set)
-//!     schedule : comma list of thread indices; one entry = that thread performs its next shim
-//!                operation (and the plain code up to the following one); entries of finished threads
-//!                are skipped; the engine appends the grants needed to finish every thread
+//!     schedule : comma list of thread indices; every shim operation takes two grants of its thread:
+//!                the first performs the operation, the second lets the plain code after it run up to
+//!                the next operation (so another thread can be scheduled between an atomic operation
+//!                and e.g. the write through the cell pointer that follows it); entries of finished
+//!                threads are skipped; the engine appends the grants needed to finish every thread
 //!     obs      : `/`-separated per thread, `,`-separated per call:  <ev>+<ev>…=<result>
 //!       ev     : <seq>:C.<succ>.<fail>.<ok|er><val> | <seq>:L.<ord>.<val> | <seq>:S.<val>.<ord> | <seq>:G
 //!       result : u (set) | N (get: none) | P<value>@<ptr class> (get: some) | T / F (is_set)
@@ -95,6 +97,16 @@ mod imp {
                         ShimOp::CellGet => format!("{}:G", n),
                     };
                     s.cur_events[tid].push(tok);
+                    // post-operation pause: the plain code that follows the operation (e.g. the write
+                    // through the cell pointer) runs only after a further grant, so another thread can be
+                    // scheduled between an atomic operation and the code after it
+                    s.state[tid] = TState::Waiting;
+                    ctx.cv.notify_all();
+                    while s.turn != Some(tid) {
+                        s = ctx.cv.wait(s).unwrap();
+                    }
+                    s.turn = None;
+                    s.state[tid] = TState::Running;
                 }
             }
         })));
@@ -231,7 +243,20 @@ fn run_line(line: &str) -> Option<String> {
 }
 
 fn ops_of(p: &str) -> usize {
-    p.chars().map(|c| match c { 's' => 3, 'g' => 2, _ => 1 }).sum()
+    // two grants per shim operation
+    2 * p.chars().map(|c| match c { 's' => 3, 'g' => 2, _ => 1 }).sum::<usize>()
+}
+
+fn multinomial(counts: &[usize]) -> f64 {
+    let mut r = 1f64;
+    let mut n = 0usize;
+    for c in counts {
+        for i in 1..=*c {
+            n += 1;
+            r = r * n as f64 / i as f64;
+        }
+    }
+    r
 }
 
 /// all interleavings (as sequences of thread indices with the given multiplicities)
@@ -271,7 +296,7 @@ fn main() {
     let tier = arg_value(&args, "--tier").unwrap_or("quick".into());
     let mut rng = Rng::new(env_seed());
     let mut count = 0u64;
-    // exhaustive: every interleaving of these program sets (upper bounds on the op counts: a losing
+    // every interleaving where there are few enough, a uniform sample otherwise of these program sets (upper bounds on the op counts: a losing
     // set makes one operation, a get that sees "not set" makes one)
     let sets: Vec<Vec<&str>> = vec![
         vec!["s", "g"],
@@ -290,7 +315,28 @@ fn main() {
     for set in &sets {
         let counts: Vec<usize> = set.iter().map(|p| ops_of(p)).collect();
         let mut all = Vec::new();
-        interleavings(&counts, &mut Vec::new(), &mut all, limit);
+        if multinomial(&counts) <= limit as f64 {
+            interleavings(&counts, &mut Vec::new(), &mut all, limit);
+        } else {
+            // too many to enumerate: sample schedules uniformly instead of taking a lexicographic prefix
+            for _ in 0..limit {
+                let mut left = counts.clone();
+                let mut sch = Vec::new();
+                let mut total: usize = left.iter().sum();
+                while total > 0 {
+                    let mut k = rng.below(total as u64) as usize;
+                    let mut t = 0;
+                    while k >= left[t] {
+                        k -= left[t];
+                        t += 1;
+                    }
+                    left[t] -= 1;
+                    total -= 1;
+                    sch.push(t);
+                }
+                all.push(sch);
+            }
+        }
         for sch in all {
             let l = format!("holder {} {}", set.join("/"), sch.iter().map(|x| x.to_string()).collect::<Vec<_>>().join(","));
             if let Some(o) = run_line(&l) {
